@@ -3,6 +3,7 @@ package props
 import (
 	"bytes"
 	"fmt"
+	"regexp"
 	"strings"
 	"sync"
 	"testing"
@@ -331,6 +332,17 @@ func genCacheCase(t *rapid.T) (*CacheCase, []string) {
 					labels = append(labels, "collision:explicitHelpers")
 				}
 			}
+			// the same text except for a directive on one fragment spread (the spread decides, not the fragment definition)
+			if m := regexp.MustCompile(`\.\.\.\s?F\d+\b`).FindStringIndex(op.Query); m != nil && !strings.HasPrefix(op.Query[m[1]:], " @") {
+				for _, d := range []string{" @skip(if: true)", " @include(if: true)"} {
+					q3 := op.Query[:m[1]] + d + op.Query[m[1]:]
+					if _, errs := gqlparser.LoadQuery(union, q3); errs == nil &&
+						closedGateIn(caseFeatures(&ExecCase{World: w, Op: opgen.Op{Query: q3, Variables: op.Variables, OperationName: op.OperationName}})) == "" {
+						c.Pool = append(c.Pool, gwx.GQLRequest{Query: q3, Variables: op.Variables, OperationName: op.OperationName})
+						labels = append(labels, "collision:spreadDirective")
+					}
+				}
+			}
 			// default value variants: the same text except for the declared defaults, sent without values for those variables
 			if q2, dropped, ok := withOtherDefaults(union, op.Query); ok {
 				v3 := map[string]interface{}{}
@@ -420,7 +432,7 @@ func genCacheCase(t *rapid.T) (*CacheCase, []string) {
 
 func TestC14(t *testing.T) {
 	rec := ev.Get("C14")
-	rec.Rule = "stateful: a gateway with planner.NewCachedPlanner(ttl), ttl in {0, 1ns, 2ms, 1h}, and a gateway with the plain planner over one generated world (optionally with a Mutation field sharing name and signature with a Query field); operation pool built for cache-key collisions (same selection under different operation names, operation types, variable values); history of 4..14 actions: request, burst of 2..5 concurrent requests, sleep 3ms; invariant after every request: (status, canonical data, error multiset) of the caching gateway == plain gateway. non-trivial = a history in which two different pool operations with equal selection text (the exported formatter's rendering, the historic cache key) are both requested; distinct by hash(history, pool)"
+	rec.Rule = "stateful: a gateway with planner.NewCachedPlanner(ttl), ttl in {0, 1ns, 2ms, 1h}, and a gateway with the plain planner over one generated world (optionally with a Mutation field sharing name and signature with a Query field); operation pool built for cache-key collisions (same selection under different operation names, operation types, variable values and defaults, helper fields written out, a directive added to one fragment spread); TestC14ManyOps: 1001..1300 distinct operations within the TTL, then early ones again; history of 4..14 actions: request, burst of 2..5 concurrent requests, sleep 3ms; invariant after every request: (status, canonical data, error multiset) of the caching gateway == plain gateway. non-trivial = a history in which two different pool operations with equal selection text (the exported formatter's rendering, the historic cache key) are both requested; distinct by hash(history, pool)"
 	defer census.dump("C14")
 	mixIntrospection = true
 	defer func() { mixIntrospection = false }()
@@ -548,4 +560,30 @@ func otherValue(schema *ast.Schema, v *ast.Value) bool {
 		return false
 	}
 	return false
+}
+
+// TestC14ManyOps: more distinct operations within the TTL than any bounded cache would keep (1001..1300), then the
+// earliest ones again: whatever the cache does with old entries, the answers stay those of the plain planner.
+func TestC14ManyOps(t *testing.T) {
+	rec := ev.Get("C14")
+	rapid.Check(t, func(t *rapid.T) {
+		n := rapid.IntRange(1001, 1300).Draw(t, "nops")
+		c := &CacheCase{World: teardownWorld(), TTLNs: int64(time.Hour)}
+		for i := 0; i < n; i++ {
+			sel := []string{"name phone", "phone", "id name", "name"}[i%4]
+			c.Pool = append(c.Pool, gwx.GQLRequest{Query: fmt.Sprintf("{ a%d: getHumans { %s } }", i, sel)})
+			c.History = append(c.History, CacheAction{Kind: "request", Ops: []int{i}})
+		}
+		again := rapid.IntRange(5, 40).Draw(t, "again")
+		for k := 0; k < again; k++ {
+			c.History = append(c.History, CacheAction{Kind: "request", Ops: []int{rapid.IntRange(0, 99).Draw(t, "which")}})
+		}
+		ev.Current("C14", c)
+		f, _ := checkC14(c)
+		rec.Case(ev.Hash(n, again, c.History[n:]), true, "manyDistinctOperations")
+		if f != nil {
+			ev.WriteFail("C14", c, f)
+			t.Fatalf("%v", f)
+		}
+	})
 }
